@@ -37,6 +37,11 @@ EXTRA = ["var rr%d := range([T(%d)]); rr%d := range([T(%d), T(%d)]); pr(rr%d.fro
          "pr(inner_of(Holder(%d)).get())" if False else "pr(Holder(%d).inner.ident() > 0)", "pr(by_cref(Holder(%d).inner))", "pr(by_value(make_holder(%d).inner))",
          "var cc%d = make_holder(%d).inner; pr(cc%d.get())", "auto ca%d = Holder(%d).inner; pr(ca%d.get())", "def gh%d() { return make_holder(%d).inner }; var qh%d = gh%d(); pr(qh%d.get())",
          "var vh%d = [make_holder(%d).inner]; pr(vh%d[0].get())", "var cd%d; cd%d = make_holder(%d).inner; pr(cd%d.get())", "if (make_holder(%d).inner.get() > 0) { pr(1) }",
+         # a call that returns a reference INTO a temporary argument, as the LAST statement of a body (its value is the body's result) and used afterwards
+         "def pk%d() { pr(0); same(T(%d)) }; pr(pk%d().get())", "def pl%d() { pr(0); same(T(%d)) }; var cq%d = pl%d(); pr(cq%d.get())", "var lk%d = fun() { same(T(%d)) }; pr(lk%d().get())",
+         "def pm%d() { if (true) { pr(0); same_c(T(%d)) } }; pr(pm%d().get())", "def pn%d() { pr(0); inner_of(Holder(%d)) }; pr(pn%d().get()); var co%d = pn%d(); pr(co%d.get())",
+         "def pp%d(a) { pr(a); same(T(%d)) }; pr(by_cref(pp%d(1))); pr(by_value(pp%d(2)))", "def pq%d() { pr(0); same(same(T(%d))) }; pr(pq%d().get() + pq%d().get())",
+         "def pt%d() { pr(0); same_c(T(%d)) }; def ps%d() { pr(1); pt%d() }; pr(ps%d().get())", "for (var i = 0; i < 2; ++i) { pr(i); pr(same(T(%d)).get()) }",
          "var vv%d = [T(%d), T(%d)]; vv%d.pop_back(); vv%d.clear()", "var lf%d = fun() { 0 }; for (var i = 0; i < 3; ++i) { lf%d = fun[i]() { i } }; pr(lf%d())",
          "var lg%d = fun() { 0 }; for (var i = 0; i < 3; ++i) { var tt = T(%d); lg%d = fun[i, tt]() { i + tt.get() } }; pr(lg%d()); pr(lg%d())", "var s%d = T(%d); s%d = T(%d)", "var c%d = bind(fun(x) { x.get() }, T(%d)); pr(c%d())"]
 
